@@ -448,21 +448,27 @@ def main(argv):
                 if fn.endswith(".ops"):
                     recs = replay_ops(prop, os.path.join(cdir, fn), f"{prop}_corpus")
                     consume(recs, "corpus/" + fn)
+        # independent seeded runs executed on all cores (quick: 8 runs of cfg["quick"] operations;
+        # thorough: cfg["runs_thorough"] runs sharing cfg["thorough"] operations)
+        import concurrent.futures
         if tier == "quick":
-            consume(safe_pair(prop, seed, cfg["quick"], "q"), f"seed {seed}")
+            runs = cfg.get("runs_quick", 8)
+            per = cfg["quick"]
+            base = seed * 100
+            tagp = "q"
         else:
-            # thorough: many independent seeded runs, executed on all cores
-            import concurrent.futures
             runs = cfg.get("runs_thorough", 4)
             per = cfg["thorough"] // runs
-            workers = min(14, os.cpu_count() or 4)
-            with concurrent.futures.ThreadPoolExecutor(max_workers=workers) as ex:
-                for b in range(0, runs, workers):
-                    batch = list(range(b, min(runs, b + workers)))
-                    futs = {r: ex.submit(safe_pair, prop, seed * 1000 + r, per, f"t{r % workers}") for r in batch}
-                    for r in batch:
-                        consume(futs[r].result(), f"seed {seed * 1000 + r}")
-                        futs[r] = None
+            base = seed * 1000
+            tagp = "t"
+        workers = min(14, os.cpu_count() or 4, runs)
+        with concurrent.futures.ThreadPoolExecutor(max_workers=workers) as ex:
+            for b in range(0, runs, workers):
+                batch = list(range(b, min(runs, b + workers)))
+                futs = {r: ex.submit(safe_pair, prop, base + r, per, f"{tagp}{r % workers}") for r in batch}
+                for r in batch:
+                    consume(futs[r].result(), f"seed {base + r}")
+                    futs[r] = None
 
     # directed search when a proof or the correspondence broke and no failing input is known yet
     searched = 0
